@@ -711,7 +711,8 @@ def ruleDateTimeDateTime(
 @rule(predicate("isTOD"), _regex_to_join, predicate("isTOD"))
 def ruleTODTOD(ts: datetime, t1: Time, _: RegexMatch, t2: Time) -> Interval:
     if (t1.hour > t2.hour) and (t1.hour <= 12 and t2.hour <= 12):
-        t2.hour = t2.hour + 12
+        # build a new value, the argument is shared with other partial parses
+        t2 = Time(hour=t2.hour + 12, minute=t2.minute)
         return Interval(t_from=t1, t_to=t2)
     else:
         return Interval(t_from=t1, t_to=t2)
